@@ -1348,11 +1348,9 @@ Proof.
   - cbn [log_cost alloc_sz]. fin.
 Qed.
 
-(* The armor reader's cost statement (header loop at 40 per octet, value buffer at most three times
-   the longest value, one Block per BEGIN line, the base64 body through io.ReadAll) is not proved
-   yet: the lemmas above (read_line_spec, buffer_grow_spec, the length lemmas) are its ingredients.
-   Every entry of the armor reader's log is a Grow entry (no request is sized from a field of the
-   input), which is what armor_decode is checked for on every case by the two-sided comparison. *)
+(* The armor reader's cost statement is proved in Proofs/CostArmor.v (armor_decode_spec: 106 n + 2580,
+   every entry of its log a Grow entry) from the lemmas above: read_line_spec, the length lemmas and
+   the potential form of buffer_grow_spec. *)
 
 (* requests made from a length field, in the typed parsers and ReadEntity *)
 Lemma okc_in : forall c l sz rem, log_okc c l -> In (Make sz rem) l -> sz <= rem \/ sz <= c.
